@@ -119,7 +119,8 @@ func vfRequest(method string, bucketRoute bool) *fiber.Ctx {
 		}
 		switch key {
 		case "x-amz-copy-source":
-			return "srcbkt/srcobj", true
+			// a proper source, or one of the degenerate spellings that are empty once decoded and stripped
+			return []string{"srcbkt/srcobj", "%2F", "//"}[zzvf.Choice("copy_source_shape", 3)], true
 		case "x-amz-bypass-governance-retention":
 			return "true", true
 		case "x-amz-acl":
